@@ -407,3 +407,24 @@ Proof.
                 (t_el S) (natoms S) (element_of S) HP (eq_refl : _ = length (t_el S)) sel _ [] a [] Hel Inv0 ER) as [J1 [J2 J3]].
   unfold element_of at 1. cbn [delitem a_typ t_el]. rewrite np_delete_nil, J1. apply J3. exact Hi.
 Qed.
+
+(* ---------- C08: self-replacement is never refused, even when the selected matches share atoms ---------- *)
+Lemma disjointb_nil_r del : disjointb del [] = true.
+Proof. unfold disjointb. induction del as [|x del IH]; [reflexivity|]. cbn [forallb memn existsb negb andb]. exact IH. Qed.
+
+Lemma rstep_self_some ig P offs : pattern_distinct P -> forall sel acc del,
+  Forall (fun m => length (m_idx m) = natoms P /\ length (m_placed m) = natoms P) sel ->
+  rstep false ig P P offs sel acc del <> None.
+Proof.
+  intros HP. induction sel as [|m rest IH]; intros acc del Hsel; cbn [rstep]; [discriminate|].
+  inversion Hsel as [|? ? [L1 _] Hrest]; subst. rewrite (self_dels_nil P m HP L1), disjointb_nil_r. cbn [orb]. apply IH. exact Hrest.
+Qed.
+
+Theorem self_replace_never_refused S P ig sel : pattern_distinct P ->
+  Forall (fun m => length (m_idx m) = natoms P /\ length (m_placed m) = natoms P) sel ->
+  replace_from S P P false ig sel <> Overlap.
+Proof.
+  intros HP Hsel. unfold replace_from. destruct (natoms P) as [|n] eqn:En in |- * at 1; [discriminate|].
+  destruct (extend_types S P) as [S1 offs]. pose proof (rstep_self_some ig P offs HP sel S1 [] Hsel) as N.
+  destruct (rstep false ig P P offs sel S1 []) as [[a del]|]; [discriminate|congruence].
+Qed.
